@@ -785,3 +785,6 @@ func VerifWireDecode(kind string, body []byte) (VerifWire, error) {
 	}
 	return w, nil
 }
+
+// VerifPushPullScale wraps pushPullScale.
+func VerifPushPullScale(interval time.Duration, n int) time.Duration { return pushPullScale(interval, n) }
